@@ -130,6 +130,9 @@ type Message struct {
 	Nested  []*Message
 	Enums   []*EnumDef
 	Comment string
+	// EntriesFirst: the map fields are declared before the nested types (their synthetic entry
+	// messages then come first among the nested types, as protoc orders them by source position).
+	EntriesFirst bool
 }
 
 // Header is sebuf.http.Header.
